@@ -12,31 +12,9 @@
    the flags (coalescing / full-state / offline) by which the check sorts schedules. *)
 From stdpp Require Import gmap.
 From Coq Require Import ZArith List.
-From Emitter Require Import Model.Lww Model.Sender Model.Cluster Proofs.ClusterProofs Findings.C05.
+From Emitter Require Import Model.Lww Model.Sender Model.Cluster Findings.C05.
 Import ListNotations.
 Local Open Scope N_scope.
-
-(* observer side: any interleaving of p's operations (merged in order, once each) with steps that
-   do not concern p *)
-Theorem C05_routing_follows_in_order_delivery_partial : forall p b x,
-  reaches p b x -> forall s, In (s, p) (bk_remote b) <-> exists c, In (c, s) (s_live x).
-Proof. exact observer_routes_exactly. Qed.
-Print Assumptions C05_routing_follows_in_order_delivery_partial.
-
-(* the steps "that do not concern p" include the model's own: the observer's local clients
-   subscribing and unsubscribing, and merging any payload that carries no entry of p *)
-Theorem C05_other_steps_do_not_interfere : forall p b,
-  bk_name b <> p ->
-  (forall conn ssid t, conn < kbase -> ssid < kbase -> same_p p b (fst (local_sub b conn ssid t)))
-  /\ (forall conn ssid t, conn < kbase -> ssid < kbase -> same_p p b (fst (local_unsub b conn ssid t)))
-  /\ (forall payload : replica, (forall k e, payload !! k = Some e -> k_peer k <> p) -> same_p p b (fst (swarm_merge b payload))).
-Proof.
-  intros p b Hn. refine (conj _ (conj _ _)).
-  - intros. apply local_sub_foreign; assumption.
-  - intros. apply local_unsub_foreign; assumption.
-  - intros. apply swarm_merge_foreign; assumption.
-Qed.
-Print Assumptions C05_other_steps_do_not_interfere.
 
 (* transport side: an operation queued on an empty slot is kept as it is (and the next pick hands
    exactly it to the receiver); queued on a non-empty slot it is coalesced - the schedule leaves
@@ -56,19 +34,7 @@ Definition routing_ok (w : world) : bool :=
           (names w).
 
 Theorem C05_all_schedules_refuted :
-  (exists ns es, quiet (run ns es) = true /\ routing_ok (run ns es) = false)
-  /\ (exists ns es b s, quiet (run ns es) = true /\ length (receivers (run ns es) b s) <> length (live_subscribers (run ns es) s)).
-Proof.
-  split.
-  - exists [1; 2], f4_schedule. vm_compute. split; reflexivity.
-  - exists [1; 2; 3], (f7_schedule ++ [EDeliver 1 2; EDeliver 2 3; EDeliver 3 1; EDeliver 1 2]), 1, 1. vm_compute. split; [reflexivity | discriminate].
-Qed.
+  exists ns es b s, quiet (run ns es) = true /\ routing_ok (run ns es) = false
+                    /\ length (receivers (run ns es) b s) <> length (live_subscribers (run ns es) s).
+Proof. exists [1; 2; 3], f7_schedule, 3, 1. vm_compute. repeat split; discriminate. Qed.
 Print Assumptions C05_all_schedules_refuted.
-
-(* the premises of the partial theorem are met by a real run: broker 2 merging three operations of
-   broker 1 in order *)
-Example C05_nonvacuous :
-  let o1 := SOp 1 0 KSub 10%Z in let o2 := SOp 2 0 KSub 20%Z in let o3 := SOp 1 0 KUnsub 30%Z in
-  let b := fold_left (fun b o => fst (swarm_merge b (payload_of 1 o))) [o1; o2; o3] (broker0 2) in
-  bk_remote b = [(0, 1)] /\ s_live (fold_left src_step [o1; o2; o3] src0) = [(2, 0)].
-Proof. vm_compute. split; reflexivity. Qed.
